@@ -40,9 +40,6 @@ finding(["C18"], "P4", "tensor.allTypes",
         "unsynchronised write in tensor.Register", 25)
 
 # ---- engine P2 (operand purity) ---------------------------------------------------------------
-for k in ["tensor.(StdEng).Dot(y)", "tensor.Dot(y)"]:
-    finding(["C09","C18"], "P2", k, "Dot(vector, matrix) does b.T(); defer b.UT() on its operand: a lazily transposed b comes back untransposed, and concurrent readers of b race",
-            "writes AP.fin, AP.o, AP.shape, AP.strides, AP.Δ, Dense.AP, Dense.old, Dense.transposeWith", 13)
 for k in ["tensor.(*Dense).Outer(t)", "tensor.(*Dense).Outer(other)", "tensor.(StdEng).Outer(a)", "tensor.(StdEng).Outer(b)", "tensor.Outer(a)", "tensor.Outer(b)"]:
     finding(["C09","C18"], "P2", k, "Outer into a column-major result temporarily reshapes both operands to (m,1) and (1,n): concurrent readers of the operands race on their shape (the error exits restore them since fix 9516b10)", "writes AP.fin, AP.shape, AP.strides", 14)
 for k in ["tensor.(*Dense).Concat(t)", "tensor.(*Dense).Hstack(t)", "tensor.(*Dense).Vstack(t)", "tensor.(StdEng).Concat(t)", "tensor.(StdEng).Concat(others)", "tensor.Concat(t)"]:
@@ -71,6 +68,7 @@ finding(["C14"], "F1", "tensor.numpyDtypes[Int32]", "GOARCH=386: Int32 is writte
 finding(["C14"], "F1", "tensor.numpyDtypes[Uint32]", "GOARCH=386: Uint32 is written as u4, which the reader maps to Uint", "Uint32->u4->Uint", 43)
 
 FIXED = [
+ {"property":"C18","commit":"84b676e","rule":"P2","key":"tensor.(StdEng).Dot(y), tensor.Dot(y)","what":"fixed: property=C18 84b676e Dot(vector, matrix) did b.T(); defer b.UT() on its operand: a lazily transposed b came back untransposed, and concurrent readers of b raced (DESIGN finding 13)"},
  {"property":"C11","commit":"9aa1df2","rule":"M3","key":"tensor.(StdEng).*Scalar[*scalar-left*iter]","what":"fixed: property=C11 9aa1df2 comparison/min-max with the scalar on the left, same-type result, iterator path: the result buffer was indexed through the operand's iterator (bit): Gt(5, a[:,1], AsSameType()) panicked index out of range (DESIGN finding 35)"},
  {"property":"C11","commit":"74195dd","rule":"M2","key":"tensor.(StdEng).*Scalar[unsafe,scalar-left,*one-element]","what":"fixed: property=C11 74195dd comparison with the scalar on the left, unsafe, one-element tensor: E.<Cmp>Same(S,T) wrote the scalar's header and nothing copied it back: Gt(5,[3],UseUnsafe()) returned [3] (DESIGN finding 42)"},
  {"property":"C07","commit":"abfb221","rule":"M2","key":"tensor.(StdEng).*Between*[unsafe*","what":"fixed: property=C07 abfb221 MinBetween/MaxBetween(+Scalar) with UseUnsafe(): the result tensor was created before the mode switch, so the unsafe case was unreachable and the call panicked \"Unreachable\" (DESIGN finding 34)"},
